@@ -23,6 +23,12 @@ order are *data choice points* unless stated otherwise):
         {plain, "chat", "superchat", unoffered} x carrier, then one text message and a client Close.
   race  Explorer A (M mid-flight injections, S preemptions, trio R): application close vs. client Close vs.
         EOF/reset as independent sources -> client first, server first, simultaneous, abrupt.
+  hswin the handshake-response window: the peer stops reading (transport write blocks: trio send_all parks, asyncio
+        buffers and blocks above the 64 KiB high-water mark), the handshake arrives, the application accepts
+        {plain, with a subprotocol, with a response head > 64 KiB} x client offers; then the closing event {client
+        Close with code none/1000/1001/3000, EOF, reset, RST_STREAM} arrives {while the 101 / 200 is still in flight
+        (before the peer reads again), after the peer has read again}; x carrier x worker.  Thorough tier: the same
+        events injected mid-flight as well (Explorer A).
 
 Oracle (reference: mc/x_c10c11_ref.py - RFC 6455 4.2.1 validity predicate, accept token via hashlib, ASGI decision
 automaton; no hypercorn code):
@@ -53,12 +59,13 @@ from mc.explore import V
 from mc.harness import internal_errors
 from mc.x_c10c11_ref import (INVALID, NOT_WS, VALID, DecisionModel, classify_h1, classify_h2, close_frame,
                              ws_accept_token)
-from mc.x_c10c11_run import GuardClient, case_execute
+from mc.x_c10c11_run import GuardClient, case_execute, make_window_client
 
 ID = "C11"
 LEVEL = "model_checking"
 TECHNIQUE = ("bounded exhaustive enumeration of handshakes (header product), of application decision sequences "
-             "(generated from the ASGI reference automaton) and of closing orders, executed on the real server stack under "
+             "(generated from the ASGI reference automaton) and of closing orders - including closing events that arrive "
+             "while the handshake response is still being sent to a stalled peer - executed on the real server stack under "
              "the virtual-time engines; deviation-bounded schedule exploration for racing closes")
 RULE = ("one execution = one connection; non-trivial = an application instance ran and a non-default data/schedule "
         "choice was taken; distinct by digest of (instances' message sequences and send outcomes, parsed client-side "
@@ -72,9 +79,16 @@ ASSUMPTIONS = [
     "(no unoffered subprotocol on the wire, parsable output, no internal error) are judged",
     "disconnect code: with all events injected at quiescence the first closing event decides; under mid-flight "
     "injection any fired closing event's code is accepted",
+    "hswin: a client may send its Close as soon as the application has accepted, although the 101 / 200 has not "
+    "reached it yet (its own reading is stalled; over HTTP/2 DATA may follow the CONNECT HEADERS at once); the arrival "
+    "is placed in that window by a guard on the application's websocket.accept.  After an EOF / reset / RST_STREAM "
+    "inside the window the handshake response need not reach the client",
 ]
-BOUNDS_DOC = {"quick": "hs1/hs2/off full products; decision sequences depth<=3 sends; race M<=1,S<=2",
-              "thorough": "hs1/hs2/off full products; decision sequences depth<=5 sends; race M<=2,S<=3, trio R<=1"}
+BOUNDS_DOC = {"quick": "hs1/hs2/off full products; decision sequences depth<=3 sends; race M<=1,S<=2; hswin 3 accept kinds "
+                       "x 6-7 closing events x 2 timings at quiescence",
+              "thorough": "hs1/hs2/off full products; decision sequences depth<=5 sends; race M<=2,S<=3, trio R<=1; hswin "
+                          "6 accept/offer kinds x 6-7 closing events x 2 timings, events also injected mid-flight M<=2 "
+                          "for the plain accept, M<=1 for the other accept kinds, none for the > 64 KiB response head (trio R<=1)"}
 BUDGET = {"quick": 100, "thorough": 1150}
 
 ENGINES = ("asyncio", "trio")
@@ -117,6 +131,9 @@ MSG: Dict[str, dict] = {
     "acc_bad": {"type": "websocket.accept", "subprotocol": "nope"},
     "acc_hdr": {"type": "websocket.accept", "headers": [(b"x-extra", b"1"), (b"x-two", b"2")]},
     "acc_forb": {"type": "websocket.accept", "headers": [(b"sec-websocket-protocol", b"chat")]},
+    # a response head larger than the transport's write-buffer high-water mark (64 KiB): with a peer that is not
+    # reading, the send of the 101 / 200 itself blocks on the asyncio worker too
+    "acc_big": {"type": "websocket.accept", "headers": [(b"x-pad-%d" % i, b"~" * 14000) for i in range(6)]},
     "close": {"type": "websocket.close"},
     "close_c": {"type": "websocket.close", "code": 3001, "reason": "bye"},
     "start200": {"type": "websocket.http.response.start", "status": 200, "headers": [(b"x-a", b"b"), (b"x-c", b"d")]},
@@ -131,6 +148,9 @@ MSG: Dict[str, dict] = {
     "send_b": {"type": "websocket.send", "bytes": b"\x00\x01"},
 }
 TERMINALS = ("raise", "return", "wait")
+# hswin: what the client does while the server's send of the handshake response is pending / right after it completed
+HSWIN_CLOSINGS = ("cc:none", "cc:1000", "cc:1001", "cc:3000", "eof", "reset", "rst")
+HSWIN_TIMINGS = ("during", "after")
 
 # off: offer header variants (RFC 6455 11.3.2 / 11.3.4: both headers may appear several times, which "is logically
 # the same as a single header field that contains all values")
@@ -293,7 +313,15 @@ def build(params: tuple, pick: Callable[[int, str], int]) -> tuple:
         carrier = params[2]
         sub_lines: Optional[List[bytes]] = None
         ext_lines: Optional[List[bytes]] = None
-        if family == "off":
+        timing = None
+        if family == "hswin":
+            offer, seq = params[3], (params[4], "wait")
+            offered, ext = OFFERS[offer]
+            if offered:
+                sub_lines = [", ".join(offered).encode()]
+            if ext:
+                ext_lines = [b"permessage-deflate"]
+        elif family == "off":
             sub_lines, ext_lines = SUBV[params[3]], EXTV[params[4]]
             offered = [t.strip().decode() for v in (sub_lines or []) for t in v.split(b",") if t.strip()]
             ext = any(t.strip().startswith(b"permessage-deflate") for v in (ext_lines or []) for t in v.split(b","))
@@ -311,10 +339,14 @@ def build(params: tuple, pick: Callable[[int, str], int]) -> tuple:
             closing = opts[pick(len(opts), "closing")]
         elif family == "off":
             closing = "cc:1000" if model.state == "connected" else "none"
+        elif family == "hswin":
+            opts = [c for c in HSWIN_CLOSINGS if c != "rst" or carrier == "ws/h2"]
+            closing = opts[pick(len(opts), "closing")]
+            timing = HSWIN_TIMINGS[pick(len(HSWIN_TIMINGS), "timing")]
         else:
             closing = params[5]
         case.update(carrier=carrier, offered=offered, ext=ext, seq=seq, closing=closing, model=model,
-                    sub_lines=sub_lines, ext_lines=ext_lines)
+                    sub_lines=sub_lines, ext_lines=ext_lines, timing=timing)
         extra1, extra2 = [], []
         for v in (sub_lines or []):
             extra1.append((b"Sec-WebSocket-Protocol", v))
@@ -359,6 +391,24 @@ def build(params: tuple, pick: Callable[[int, str], int]) -> tuple:
         if family in ("dec", "off"):
             sources = [("client", client + closing_events(closing))]
             apps = {"websocket": program(seq)}
+        elif family == "hswin":
+            # the peer stops reading (h2: once the connection preface is exchanged), the handshake arrives, the
+            # application accepts: the 101 / 200 is in flight (trio: send_all blocks; asyncio: it sits in the write
+            # buffer, and the send blocks when it exceeds the high-water mark).  'during': the closing event arrives
+            # in that window, then the peer reads again; 'after': the peer reads again, then the client closes.
+            head = client[:1] + [("pause", 0)] + client[1:] if carrier == "ws/h2" else [("pause", 0)] + client
+            if timing == "during":
+                if closing.startswith("cc:"):
+                    c = closing[3:]
+                    mid = [("cmd", 0, "ws_early", 1, close_frame(None if c == "none" else int(c)))]
+                else:
+                    mid = [("cmd", 0, "accept_wait")] + closing_events(closing)
+                tail = mid + [("resume", 0)]
+            else:
+                tail = [("cmd", 0, "accept_wait"), ("resume", 0)] + closing_events(closing)
+            sources = [("client", head + tail)]
+            apps = {"websocket": program(seq)}
+            midflight = bool(params[5])
         else:  # race: the application's close is gated, the closing events are independent sources
             prog: List[tuple] = [("recv",)]
             for op in seq:
@@ -370,7 +420,8 @@ def build(params: tuple, pick: Callable[[int, str], int]) -> tuple:
             for i, name in enumerate(closing.split("+")):
                 sources.append((f"closer{i}", closing_events(name)))
             midflight = True
-    sc = {"level": "conn", "conns": {0: conn}, "client_factory": make_client, "apps": apps, "config": config,
+    factory = make_window_client if family == "hswin" else make_client
+    sc = {"level": "conn", "conns": {0: conn}, "client_factory": factory, "apps": apps, "config": config,
           "sources": sources, "midflight": midflight, "trio_rev": midflight}
     return engine, sc, case
 
@@ -392,6 +443,13 @@ def scenarios(tier: str) -> List[Any]:
             for si in range(len(SUBV)):
                 for ei in range(len(EXTV)):
                     out.append(("off", e, carrier, si, ei))
+            kinds = [("none", ("acc", "acc_big")), ("sub+ext", ("acc_sub",))]
+            if tier != "quick":
+                kinds += [("sub", ("acc_sub", "acc_hdr")), ("ext", ("acc",))]
+            for offer, accs in kinds:
+                for acc in accs:
+                    # (one execution with the 84 KB response head costs ~100x a plain one: quiescent injection only)
+                    out.append(("hswin", e, carrier, offer, acc, tier != "quick" and acc != "acc_big"))
             races = [(("acc", "close", "wait"), "cc:1001"), (("acc", "close_c", "wait"), "cc:none"),
                      (("acc", "close", "wait"), "eof"), (("acc", "wait"), "cc:1001+eof"),
                      (("acc", "wait"), "cc:3000+reset"), (("acc", "send_t", "close", "wait"), "cc:1000+eof")]
@@ -403,6 +461,9 @@ def scenarios(tier: str) -> List[Any]:
 
 
 def bounds(tier: str, params: Any) -> dict:
+    if params[0] == "hswin" and params[5]:
+        deep = params[3] == "none" and params[4] == "acc"
+        return {"M": 2 if deep else 1, "S": 0, "R": 1 if params[1] == "trio" else 0}
     if params[0] != "race":
         return {"M": 0, "S": 0, "R": 0}
     if tier == "quick":
@@ -526,7 +587,11 @@ def oracle(w: Any, params: Any, case: dict) -> List[dict]:
             out += _accept_checks(resp, carrier, case.get("keys", []), None, [], [], False, tag)
         return out
 
-    # ---- dec / race
+    # ---- dec / race / hswin
+    if family == "hswin" and not any(e[0] == "resume" for _, e in w.driver.fired):
+        # (mid-flight injection only) the peer stalled before the server could even answer the connection preface
+        # and never read again: the application was not reached, the scenario says nothing
+        return [V("internal-error", f"{carrier}:{site}", detail) for site, detail in sorted(sites.items())]
     model: DecisionModel = case["model"]
     seq, closing, offered = case["seq"], case["closing"], case["offered"]
     tag = carrier
@@ -555,7 +620,9 @@ def oracle(w: Any, params: Any, case: dict) -> List[dict]:
         elif status is not None:
             out.append(V("no-decision-rendering", f"{carrier}{crashed}:status={status}", seq))
     elif d is not None and d[0] == "accept":
-        if resp is None:
+        if resp is None and case.get("timing") == "during" and closing in ("eof", "reset", "rst"):
+            pass  # the client went away before the response left the server: nothing has to reach it
+        elif resp is None:
             lines = case.get("sub_lines")
             why = f":subprotocol-offered-over-{len(lines)}-header-lines" if d[1] is not None and lines and len(lines) > 1 else ""
             out.append(V("accept-rendering", f"{carrier}{crashed}:no-response{why}", f"seq={seq} offered={offered!r}"))
@@ -623,6 +690,9 @@ def oracle(w: Any, params: Any, case: dict) -> List[dict]:
                 allowed = own if first == "own-close" else _code_of(first, own)
         if allowed and got not in allowed:
             kind = "client-close" if first.startswith("cc:") else first
+            if case.get("timing") is not None:  # hswin: where the closing event fell
+                kind += {"during": ":while-handshake-response-in-flight",
+                         "after": ":after-stalled-handshake-response"}[case["timing"]]
             want = "|".join(str(c) for c in sorted(allowed))
             out.append(V("disconnect-code", f"{carrier}{crashed}:{kind}:want={want}:got={got}",
                          f"seq={seq} closing={closing} fired={[repr(e)[:60] for e in fired]}"))
